@@ -45,6 +45,11 @@ func runC02(c *Ctx) {
 	c02Elliptic(c)
 	c02Misc(c)
 	c02Eddsa(c)
+	// the public half of the derivation and the curve it is wired to: a child derived from an extended public key must be
+	// the public key of the privately derived child, and both go through the secp256k1 implementation of
+	// elliptic/internal/btccurve (ScalarBaseMult / Add) — C08's obligations, C17's on that copy included, are part of
+	// "derivation on all three curves" (round-8 seed C02-r8-2: a ScalarMult that assumes a minimal-length scalar)
+	reKey(c, "C08.", "C02.public-derivation.", func() { runC08(c) })
 }
 
 // hmacHelper checks the private HMAC helper: hmac.New(sha512.New, key), every data part written in order, write errors propagated.
